@@ -543,6 +543,29 @@ pub fn scenarios() -> Vec<Scenario>
 			expect: Expect::Accept(format!("own={expected}\nz=4\n")),
 		});
 	}
+	// (3b) declarations without a body may be repeated: two modules each declare the same public
+	// extern head, a public head in one module stands for the definition in another
+	{
+		let a = "pub extern fn abs(x: i32) -> i32;\npub fn twice(x: i32) -> i32\n{\n\treturn: abs(x) * 2\n}\n".to_string();
+		let b = "pub extern fn abs(x: i32) -> i32;\npub fn thrice(x: i32) -> i32\n{\n\treturn: abs(x) * 3\n}\n".to_string();
+		let c = "import \"m2.pn\";\n\npub fn sixfold(x: i32) -> i32\n{\n\treturn: thrice(x) * 2\n}\n".to_string();
+		let m = "import \"m1.pn\";\nimport \"m3.pn\";\n\nfn main() -> u8\n{\n\tprint!(\"v=\", twice(-1) + sixfold(-2), \"\\n\");\n\treturn: 0\n}\n".to_string();
+		out.push(Scenario {
+			name: "the same public extern head in two modules that are imported by different modules".to_string(),
+			class: "repeated heads",
+			files: vec![("m0.pn".into(), m), ("m1.pn".into(), a), ("m2.pn".into(), b), ("m3.pn".into(), c)],
+			expect: Expect::Accept("v=14\n".to_string()),
+		});
+		let head = "pub fn total() -> i32;\npub fn doubled() -> i32\n{\n\treturn: total() * 2\n}\n".to_string();
+		let body = "pub fn total() -> i32\n{\n\treturn: 21\n}\n".to_string();
+		let m = "import \"m1.pn\";\n\nfn main() -> u8\n{\n\tprint!(\"v=\", doubled(), \"\\n\");\n\treturn: 0\n}\n".to_string();
+		out.push(Scenario {
+			name: "a public head in one module, the definition in a module nobody imports".to_string(),
+			class: "repeated heads",
+			files: vec![("m0.pn".into(), m), ("m1.pn".into(), head), ("m2.pn".into(), body)],
+			expect: Expect::Accept("v=42\n".to_string()),
+		});
+	}
 	// (4) names of the importer must not be captured by what it imports
 	{
 		let lib = "const B: i32 = 5;\npub const A: i32 = B * 2;\npub fn lib_a() -> i32\n{\n\treturn: A\n}\n".to_string();
